@@ -111,6 +111,10 @@ def step (st : St) (line : String) : St × String :=
     match parseBool b with
     | some b => (st, if st.lines.isEmpty then "no-file" else showR showRead (readPdb b st.lines))
     | none => (st, "bad-op")
+  | ["readmodel", k, b] =>
+    match k.toInt?, parseBool b with
+    | some k, some b => (st, if st.lines.isEmpty then "no-file" else showR showRead (readModel k b st.lines))
+    | _, _ => (st, "bad-op")
   | _ => (st, "bad-op")
 
 def main : IO Unit := loop ({} : St) step
